@@ -193,7 +193,36 @@ def commit_after_loop_rule(ctx, rule):
                'a store to the handle\'s metadata inside the row-group loop survives a failed append (phantom row '
                'groups are then written by the next successful append through the same handle)', wr.loc(s))
     # the list that accumulates row groups is a private list
-    rgs = [s for s in iter_child_stmts(f.body) if isinstance(s, ast.Assign) and norm(s) == 'rgs = fmd.row_groups']
+    rgs = [s for s in iter_child_stmts(f.body) if isinstance(s, ast.Assign) and norm(s) in ('rgs = fmd.row_groups', 'rgs = list(fmd.row_groups or [])', 'rgs = list(fmd.row_groups)')]
     ctx.ob(rule, 'writer.write_to_file:row-groups-accumulated-in-a-private-list', len(rgs) == 1 and
            any(norm(s) == 'rgs.append(rg)' for s in iter_child_stmts(loop.body)),
            'fmd.row_groups builds a fresh list on every access; it is stored back only after the loop', wr.loc(f))
+
+
+def multi_commit_stores(wr):
+    """(stores to fmd.<field> inside the part loop of write_multi, stores after it)"""
+    f = wr.func('write_multi')
+    loops = [s_ for s_ in iter_child_stmts(f.body) if isinstance(s_, ast.For) and ('make_part_file' in src(s_) or 'partition_on_columns' in src(s_))]
+    if len(loops) != 1:
+        raise AnalysisError('part loop of write_multi not found')
+    loop = loops[0]
+    inner = [s_ for s_ in iter_child_stmts(loop.body) if isinstance(s_, (ast.Assign, ast.AugAssign)) and
+             isinstance((s_.targets[0] if isinstance(s_, ast.Assign) else s_.target), ast.Attribute) and
+             norm((s_.targets[0] if isinstance(s_, ast.Assign) else s_.target).value) == 'fmd']
+    after = [s_ for s_ in f.body[f.body.index(loop) + 1:] if isinstance(s_, ast.Assign) and isinstance(s_.targets[0], ast.Attribute)
+             and norm(s_.targets[0].value) == 'fmd']
+    return f, loop, inner, after
+
+
+def commit_after_loop_multi_rule(ctx, rule):
+    """write_multi: the dataset's metadata object (the handle's own, on an append through a handle) takes the new row
+    groups only when every part of the call has been written - a store inside the part loop survives a failure in a later
+    part, and the next successful append through that handle publishes the parts of the refused one"""
+    wr = ctx.repo['writer']
+    f, loop, inner, after = multi_commit_stores(wr)
+    for s_ in inner:
+        ctx.ob(rule, 'writer.write_multi:metadata-committed-after-all-parts:%s' % norm(s_)[:50], False,
+               '`%s` inside the part loop' % norm(s_), wr.loc(s_))
+    ctx.ob(rule, 'writer.write_multi:row-groups-and-row-count-stored-after-the-part-loop',
+           any(norm(s_.targets[0]) == 'fmd.row_groups' for s_ in after) and any(norm(s_.targets[0]) == 'fmd.num_rows' for s_ in after),
+           'stores after the loop: %s' % [norm(s_)[:40] for s_ in after], wr.loc(f))
